@@ -286,7 +286,7 @@ class Inliner:
         decs = target.decorators()
         if any(d not in ("staticmethod", "classmethod") for d in decs):
             return None
-        if _has_yield(target.node) or len(list(walk_no_nested(target.node))) > 400:
+        if _has_yield(target.node) or len(list(walk_no_nested(target.node))) > 900:
             return None
         if len(_strip_doc(target.node.body)) > MAX_HELPER_STMTS:
             return None
